@@ -4,7 +4,7 @@
 
 use crate::hostile::corpus;
 use crate::panicmon;
-use crate::prng::hash_str;
+use crate::prng::{hash_str, Rng};
 use crate::report::{Args, Report};
 use crate::streams::{Ctl, MonReader};
 use mp4::Mp4Reader;
@@ -32,11 +32,51 @@ fn open(bytes: &Rc<Vec<u8>>, len: u64, init: Option<&Mp4Reader<MonReader>>) -> (
     (r, ctl)
 }
 
+/// corpus files by name; generated subjects by kind (their number is in `generated_subjects`)
+fn kind_of(name: &str) -> &str {
+    if name.starts_with("generated") {
+        name.rsplitn(2, ' ').nth(1).unwrap_or(name)
+    } else {
+        name
+    }
+}
+
+struct Subject {
+    name: String,
+    bytes: Vec<u8>,
+    init: Option<Vec<u8>>,
+}
+
 pub fn run(args: &Args) -> i32 {
     let mut rep = Report::new(args, true);
     let seeds = corpus(args.seed, args.thorough());
+    let mut subjects: Vec<Subject> = seeds.iter().map(|s| Subject { name: s.name.clone(), bytes: s.bytes.clone(), init: s.init.clone() }).collect();
+    // generated subjects: plain movies (several tracks with interleaved chunks, movie header
+    // first or last, every table form) and fragmented movies (whole stream, and segment + init)
+    let ng = args.scale(2_000, 40_000);
+    for g in 0..ng {
+        let mut rng = Rng::derive(args.seed, 0xC11, g);
+        match g % 3 {
+            0 | 1 => {
+                let m = crate::model::gen_movie(&mut rng, 3, if g % 7 == 0 { 30 } else { 8 }, 24);
+                let fl = crate::model::gen_file_layout(&mut rng, &m);
+                subjects.push(Subject { name: format!("generated movie {}", g), bytes: crate::model::build_plain(&m, &fl, &|_| {}).ser.bytes, init: None });
+            }
+            _ => {
+                let same_trex = rng.bool();
+                let fm = crate::model::gen_frag_movie(&mut rng, 3, 2, 3, same_trex);
+                let b = crate::model::build_fragmented(&fm);
+                if g % 2 == 0 {
+                    subjects.push(Subject { name: format!("generated fragmented movie {}", g), bytes: b.whole.bytes, init: None });
+                } else {
+                    subjects.push(Subject { name: format!("generated media segment {}", g), bytes: b.segment, init: Some(b.init) });
+                }
+            }
+        }
+    }
+    rep.add("generated_subjects", if args.shard == 0 { ng } else { 0 });
     let mut idx = 0u64;
-    for (si, seed) in seeds.iter().enumerate() {
+    for (si, seed) in subjects.iter().enumerate() {
         let whole = Rc::new(seed.bytes.clone());
         let n = whole.len();
         // the initialisation segment a media segment is opened against
@@ -96,7 +136,7 @@ pub fn run(args: &Args) -> i32 {
                         rep.fail("C11", &id, "hang_on_open", json!({"file": seed.name, "cut": c, "of": n, "ops": ctl.ops.get()}));
                     }
                     rep.add("prefix_open_failed", 1);
-                    rep.cover(hash_str(&format!("{}|fail", seed.name)));
+                    rep.cover(hash_str(&format!("{}|fail", kind_of(&seed.name))));
                 }
                 Ok(Ok(mut mp4)) => {
                     rep.add("prefix_opened_ok", 1);
@@ -141,7 +181,7 @@ pub fn run(args: &Args) -> i32 {
                     rep.add("sample_reads_failed_or_absent", failed);
                     // a non-trivial case: the prefix opened and at least one sample was decided
                     let class = if equal > 0 && failed > 0 { "mixed" } else if equal > 0 { "all_equal" } else { "none_readable" };
-                    rep.cover_nt(hash_str(&format!("{}|open|{}", seed.name, class)));
+                    rep.cover_nt(hash_str(&format!("{}|open|{}|{}", kind_of(&seed.name), class, if total_samples > 0 { c * 8 / n.max(1) } else { 9 })));
                 }
             }
             rep.end();
@@ -152,7 +192,7 @@ pub fn run(args: &Args) -> i32 {
         if rep.want_sample() && args.shard == 0 {
             rep.sample(json!({"file": seed.name, "length": n, "cut_stride": stride, "tracks": ids.len(), "samples_in_complete_file": total_samples}));
         }
-        rep.note("files", &seed.name);
+        rep.note("files", kind_of(&seed.name));
     }
     rep.finish()
 }
